@@ -105,6 +105,24 @@ theorem decode_encode_bytes (v : Value) (hwf : wf v = true)
       decode m.strings (encode (metaOf v) v) = .ok (canon v) :=
   ⟨_, decodeMeta_encodeMeta v hwf hmeta, decode_encode v hwf hlen⟩
 
+/-! ### two limits of the Go implementation, with witnesses (reported as findings) -/
+
+/-- The format (and the spec decoder) keeps all 32 bits of a float, but `variant.Value` cannot
+    hold a signalling float32 NaN: the image of `0x7f800001` under the Go representation is
+    `0x7fc00001`. Bytes with such a payload change under Go's Decode → Encode. -/
+theorem float32_snan_witness :
+    decode [] (encode [] (.prim (.float 0x7f800001#32))) = .ok (.prim (.float 0x7f800001#32)) ∧
+    goFloat32Image 0x7f800001#32 = 0x7fc00001#32 ∧ goFloat32Image 0x7f800001#32 ≠ 0x7f800001#32 :=
+  ⟨decode_encode_prim [] _ rfl trivial, by decide, by decide⟩
+
+/-- Object field values are located by their start offset only, so an encoding may let fields share
+    bytes; the decoders accept it (here both fields of `{a, b}` are the one null byte). Nesting such
+    objects makes the number of decoded values exponential in the input size. -/
+theorem overlapping_fields_accepted :
+    decode [[0x61], [0x62]] [0x02, 2, 0, 1, 0, 0, 1, 0x00] =
+      .ok (.obj [([0x61], .prim .null), ([0x62], .prim .null)]) := by
+  rfl
+
 /-- `canon` is a normal form (idempotent), so "equal up to field order" (`canon v = canon w`) is an
     equivalence and `decode ∘ encode` lands in the class of `v`. -/
 theorem canon_idem (v : Value) : canon (canon v) = canon v := canon_idem' v
